@@ -173,6 +173,12 @@ VH_DRIVER(algebra){
       const char* pths[]={"/a/b","/a/c"}; long q=0;
       for(auto a1:auths) for(auto a2:auths) for(int pi=0;pi<2;++pi) for(int md=0;md<2;++md){ ++q; Text s=T("s:")+T(a1)+T(pths[pi]), b=T("s:")+T(a2)+T(pths[1-pi]);
         AW(true,q%2,[&]{ removebase_event<ApiA>(s,b,md,(int)(q%3==0)); },[&]{ removebase_event<ApiW>(s,b,md,(int)(q%3==0)); }); } }
+    // presence against emptiness of query and fragment on either side (absent, present-but-empty, equal text, different text), for the same
+    // path, a sibling, a deeper and a shallower one, with and without authority
+    { long q=0; const char* pp[]={"/a/b","/a/b/","/a","","/"}; const char* sq[]={"","?","?q"}; const char* bq[]={"","?","?q","?r"};
+      for(const char*au:{"","//h"}) for(auto p1:pp) for(auto p2:pp) for(auto q1:sq) for(auto q2:bq) for(const char*f1:{"","#f"}) for(const char*f2:{"","#"}) for(int md=0;md<2;++md){ ++q;
+        Text s=T("s:")+T(au)+T(p1)+T(q1)+T(f1), b=T("s:")+T(au)+T(p2)+T(q2)+T(f2);
+        AW(true,q%2,[&]{ removebase_event<ApiA>(s,b,md,(int)(q%3==0)); },[&]{ removebase_event<ApiW>(s,b,md,(int)(q%3==0)); }); } }
     // non-absolute operands: the two dedicated error codes
     for(const char*x:{"//h/a","/a","a","","?q"}) for(const char*y:{"s://h/a","//h/a","a"}) for(int md=0;md<2;++md){ AW(true,true,[&]{ removebase_event<ApiA>(T(x),T(y),md,0); },[&]{ removebase_event<ApiW>(T(x),T(y),md,0); }); AW(true,false,[&]{ removebase_event<ApiA>(T(y),T(x),md,1); },[&]{ removebase_event<ApiW>(T(y),T(x),md,1); }); }
     // longer random paths sharing prefixes of random length
